@@ -21,6 +21,19 @@ Per run:
         enumerated from the source (harness/props/c20_scan.py) against EXPECTED_STATE; when that or any cache-key obligation breaks, the
         families concerned run isolated (A, B) / (B, A) histories in thorough-size numbers before the check may conclude
         no-failing-input-found.
+  (ii'') SETTING-COLLISION pairs (c20_nearcol.setting_entries): dadi's module-level settings (Integration.timescale_factor, use_delj_trick, use_old_timestep /
+        old_timescale_factor, Godambe.two_pt_deriv_test, Inference._out_of_bounds_val; enumerated from the source fail-closed by c20_scan.settings_state against
+        EXPECTED_SETTINGS, each with a reviewed role in nc.SETTING_TABLE; a NEW numeric / boolean setting gets automatic alternative values) and the seeds of the
+        random sources are ARGUMENTS of the near-collision stream: for every integrator d=1..5 and one_pop_X (constant and time-dependent paths), from_phi d=1..5,
+        extrapolated models, from_demes, Godambe, the objective function, Spectrum.sample / fixed_size_sample, Misc.perturb_params and the simulated low-pass entries,
+        A under value 1, then `dadi.<Module>.<setting> = value 2` by PLAIN attribute assignment (and through the setter where one exists), B, value 1 restored, A
+        again, and the reverse order - every call bitwise against a pristine interpreter that executed the same assignments from the start.  A failing pair (with the
+        assignment between the calls) is the replay.  Fail-closed source obligation: no memoised function (memoising decorator / storing into a module-level
+        dictionary) reads a setting, directly or through functions of its file (EXPECTED_MEMO_READS).  A new memo anywhere (EXPECTED_STATE) or a change of either
+        table puts the family 'settings' on the broken list: the pairs then run in thorough-size numbers with isolated A,B,A / B,A,B histories before the check may
+        conclude no-failing-input-found.  The diagnosis also empties functools.lru_cache-style wrappers (impl discovered_memo_wrappers).  Model/Memo.v section
+        SettingMemo: a setting read by the memoised function is part of the call; Props/C20.v C20_setting_in_key_transparent, C20_setting_outside_key_refuted,
+        C20_plain_assignment_replays, C20_setter_then_plain_restore_replays, C20_setter_only_program_transparent.
   (iii) argument-layout differential: F-ordered, transposed, sliced, negatively strided, offset views against the
         C-contiguous copy; includes the exporters (Spectrum.to_file / tofile, Numerics.array_to_file: the TEXT written for a
         reorder_pops view / transposed / negatively strided / strided / Fortran-ordered spectrum = text for its contiguous copy).
@@ -125,6 +138,31 @@ EXPECTED_STATE = {
     'cuda/cusparse.py': ['module:cusparseExceptions'],
 }
 
+# every module-level SETTING of the source tree (c20_scan.settings_state): names bound at module level to a scalar literal that a function reads as a
+# free name / re-binds with `global` / that is read as <Module>.<name> anywhere, and module-level random generators.  A setting is an ARGUMENT of every
+# call that reads it (handed over by plain attribute assignment): nc.SETTING_TABLE gives each one its role and the values of the setting-collision pairs.
+EXPECTED_SETTINGS = {
+    'Demes/Demes.py': ['setting:_imported_demes'],
+    'Demes/Inference.py': ['setting:_counter', 'setting:_out_of_bounds_val'],
+    'Godambe.py': ['setting:two_pt_deriv_test'],
+    'Inference.py': ['setting:_counter', 'setting:_out_of_bounds_val'],
+    'Integration.py': ['setting:cuda_enabled', 'setting:old_timescale_factor', 'setting:timescale_factor', 'setting:use_delj_trick', 'setting:use_old_timestep'],
+    'LowPass/LowPass.py': ['rng:rng'],
+    'Misc.py': ['setting:code'],
+    'Spectrum_mod.py': ['setting:_imported_demes'],
+    'TwoLocus/demographics.py': ['setting:cache_path'],
+    'TwoLocus/inference.py': ['setting:_counter', 'setting:_out_of_bounds_val'],
+    'TwoLocus/numerics.py': ['setting:tol'],
+    'cuda/__init__.py': ['setting:BLOCKSIZE'],
+    'cuda/cusparse.py': ['setting:_libcusparse'],
+}
+# memoised functions (memoising decorator, or storing into a module-level dictionary) that read a setting, directly or through functions of their file.
+# Inference._object_func / _object_func_resid store into _theta_store, which is a LOG (read by optimize_grid only, after resetting it - obligation below),
+# not a memo: what they return is never taken from it.  Anything else here is a memo whose key lacks an argument (C20_setting_outside_key_refuted).
+EXPECTED_MEMO_READS = {
+    'Inference.py': ['_object_func:_counter', '_object_func:_out_of_bounds_val', '_object_func_resid:_counter', '_object_func_resid:_out_of_bounds_val'],
+}
+
 # every call that passes a `copy=` keyword (entry_protocol.copy_keywords; exec templates included): literal True, or the three constructors
 # handing their own `copy` parameter (default True) to numpy.ma.masked_array.  copy=False would make numpy keep the caller's buffers - data AND mask.
 EXPECTED_COPY_KW = [
@@ -149,7 +187,7 @@ def translator_tie(ctx):
         state = scan.memo_state(R)
     except ep.Refuse as e:
         ctx.obligation('enumerate the memo-like state of dadi/**/*.py', False, 'translator', str(e))
-        info['broken_families'].update(nc.ALL_FAMILIES)
+        info['broken_families'].update(nc.ALL_FAMILIES + ['settings'])
         state = None
     if state is not None:
         diff = {}
@@ -161,6 +199,40 @@ def translator_tie(ctx):
                        'global re-bindings) in dadi/**/*.py are exactly the %d listed ones' % sum(len(v) for v in EXPECTED_STATE.values()),
                        not diff, 'translator', json.dumps(diff)[:600])
         info['memo_state_diff'] = diff
+        if any(v['new'] for v in diff.values()):
+            # a NEW memo: the setting-collision pairs of the entry points that can reach it run in thorough-size numbers (that is the search)
+            info['broken_families'].add('settings')
+    # --- module-level settings: arguments handed over by attribute assignment
+    info['setting_defaults'] = {}
+    try:
+        sitems, sdefaults, smemo = scan.settings_state(R)
+    except (ep.Refuse, SyntaxError) as e:
+        ctx.obligation('enumerate the module-level settings of dadi/**/*.py', False, 'translator', str(e))
+        info['broken_families'].update(nc.ALL_FAMILIES + ['settings'])
+    else:
+        info['setting_defaults'] = sdefaults
+        diff = {}
+        for f in sorted(set(sitems) | set(EXPECTED_SETTINGS)):
+            if sorted(sitems.get(f, [])) != sorted(EXPECTED_SETTINGS.get(f, [])):
+                diff[f] = {'new': sorted(set(sitems.get(f, [])) - set(EXPECTED_SETTINGS.get(f, []))), 'gone': sorted(set(EXPECTED_SETTINGS.get(f, [])) - set(sitems.get(f, [])))}
+                info['broken_families'].update(nc.FAMILIES_OF_FILE.get(f, []) + ['settings'])
+        ctx.obligation('module-level settings (scalars that functions read as free names or as <Module>.<name>, module-level random generators) in dadi/**/*.py are exactly the '
+                       '%d listed ones' % sum(len(v) for v in EXPECTED_SETTINGS.values()), not diff, 'translator', json.dumps(diff)[:600])
+        norole = sorted('%s:%s' % k for k in sdefaults if nc.setting_role(*k) is None)
+        norole += sorted('%s:%s' % (f, it[4:]) for f, its in sitems.items() for it in its if it.startswith('rng:') and nc.setting_role(f, it[4:]) is None)
+        ctx.obligation('every module-level setting has a reviewed role (value: exercised by setting-collision pairs / bookkeeping / constant / unavailable / unexercised / outside)',
+                       not norole, 'translator', repr(norole))
+        exercised = sorted('%s.%s' % (nc.setting_modname(k[0]), k[1]) for k in sdefaults if (nc.setting_role(*k) or {}).get('role') == 'value')
+        info['settings_exercised'] = exercised
+        mdiff = {}
+        for f in sorted(set(smemo) | set(EXPECTED_MEMO_READS)):
+            if sorted(smemo.get(f, [])) != sorted(EXPECTED_MEMO_READS.get(f, [])):
+                mdiff[f] = {'new': sorted(set(smemo.get(f, [])) - set(EXPECTED_MEMO_READS.get(f, []))), 'gone': sorted(set(EXPECTED_MEMO_READS.get(f, [])) - set(smemo.get(f, [])))}
+                info['broken_families'].update(nc.FAMILIES_OF_FILE.get(f, []) + ['settings'])
+        ctx.obligation('no memoised function (memoising decorator, or storing into a module-level dictionary) reads a module-level setting - directly or through functions of its file - '
+                       'beyond the %d reviewed log writers: a setting read by a memoised function is part of the call and must be part of the key (C20_setting_outside_key_refuted)'
+                       % sum(len(v) for v in EXPECTED_MEMO_READS.values()), not mdiff, 'translator', json.dumps(mdiff)[:600])
+        info['memo_setting_reads_diff'] = mdiff
     # --- integrators
     try:
         protos = ep.integrator_protocols(os.path.join(R, 'Integration.py'))
@@ -884,6 +956,7 @@ def near_collision_phase(ctx, rep, info, ents, nc_jobs, allres, ref, broken):
     two-call history (some earlier call, the failing call) which becomes the replay"""
     bad, ncrash = [], 0                      # bad: (job index, call index)
     eff_entry, eff_family, args_seen = {}, {}, set()
+    eff_setting, n_setting_hist, n_setting_calls = {}, 0, 0
     npairs = neff = ncalls = 0
     for j, job in enumerate(nc_jobs):
         e = ents[job['e']]
@@ -920,9 +993,19 @@ def near_collision_phase(ctx, rep, info, ents, nc_jobs, allres, ref, broken):
                 if rec['digest'] != want['digest']:
                     bad.append((j, k))
                 lab = job['labels'][k]
+                if e.get('setting'):
+                    n_setting_calls += 1
                 if lab is not None:
                     args_seen.add((e['entry'], lab))
                     effective.append(want['digest'] != ref[base_sig]['digest'] if base_sig in ref else False)
+                    if e.get('setting'):
+                        # a pair is effective when the two pristine values differ: from A, and (chains under a context) from the call before
+                        prev = ref.get(sig(h[k - 1])) if k > 0 else None
+                        ef = effective[-1] and (prev is None or job['labels'][k - 1] != lab or prev['digest'] != want['digest'])
+                        sn = lab.split(' (')[0]
+                        eff_setting[sn] = eff_setting.get(sn, 0) + (1 if ef else 0)
+            if e.get('setting'):
+                n_setting_hist += 1
         for ef in effective:
             npairs += 1
             if ef:
@@ -939,16 +1022,47 @@ def near_collision_phase(ctx, rep, info, ents, nc_jobs, allres, ref, broken):
     ctx.obligation('near-collision stream: calls that differ from a base call A in ONE argument, run after A (and A after them) in one process - every call returns bitwise its '
                    'pristine-interpreter value (%d histories, %d calls; %d (A, variant) pairs over %d arguments of %d entry points of %d memoised families; in %d pairs the two values differ)' % (
                        len(nc_jobs), ncalls, npairs, len(args_seen), len(eff_entry), len(eff_family), neff), not bad and not ncrash, 'predicate', '%d calls differ' % len(bad))
-    vac = sorted(k for k, v in eff_entry.items() if v == 0)
+    vac_ok = set(e['entry'] for e in ents if e.get('vacuous_ok'))
+    vac = sorted(k for k, v in eff_entry.items() if v == 0 and k not in vac_ok)
     ctx.obligation('near-collision stream is not vacuous: every entry point has pairs whose two pristine values differ', not vac, 'harness', repr(vac))
+    s_ents = [e for e in ents if e.get('setting')]
+    if s_ents:
+        bad_s = [(j, k) for j, k in bad if ents[nc_jobs[j]['e']].get('setting')]
+        ctx.stats['setting_collision'] = {'entry_points': len(s_ents), 'histories': n_setting_hist, 'calls_compared_with_pristine': n_setting_calls,
+                                          'effective_pairs_per_setting': eff_setting, 'settings_exercised': info.get('settings_exercised')}
+        ctx.obligation('setting-collision pairs: module-level settings (%s) and random seeds as ARGUMENTS - for every integrator d=1..5 and one_pop_X (constant and time-dependent '
+                       'parameters), from_phi d=1..5, extrapolated models, from_demes, Godambe, the objective function and the random helpers: A under value 1, the plain '
+                       'assignment `dadi.<Module>.<setting> = value 2` (and the setter where one exists), B, value 1 restored, A again - every call returns bitwise what a pristine '
+                       'interpreter that had the value from the start returns (%d entry points, %d histories, %d calls)' % (
+                           ', '.join(info.get('settings_exercised') or []), len(s_ents), n_setting_hist, n_setting_calls), not bad_s, 'predicate', '%d calls differ' % len(bad_s))
+        want_s = set('setting ' + x for x in (info.get('settings_exercised') or [])) | set(['random seed'])
+        vac_s = sorted(x for x in want_s if not eff_setting.get(x))
+        # Godambe.two_pt_deriv_test only changes one-sided derivatives (a parameter at a bound): read, without effect on the catalogue's interior points
+        vac_s = [x for x in vac_s if x != 'setting Godambe.two_pt_deriv_test']
+        ctx.obligation('setting-collision pairs are not vacuous: for every exercised setting some pair (A, B) has two different pristine values', not vac_s, 'harness', repr(vac_s))
     if not bad:
         return
     # one violation per (entry point, argument): shrink to a two-call history, then ask which dictionary, emptied, restores the value
-    chosen, seen = [], set()
+    chosen, seen, affected = [], set(), {}
+    # setting entries: a call of the reverse history (all variants, then A) is attributed to its predecessor, whatever that was - reported only for an entry
+    # none of whose chain / pair histories (clean attribution: A, the assignment, B) failed
+    clean_fail = set(nc_jobs[j]['e'] for j, k in bad if ents[nc_jobs[j]['e']].get('setting') and nc_jobs[j]['kind'] != 'reverse')
     for j, k in bad:
         job = nc_jobs[j]; e = ents[job['e']]
+        if e.get('setting'):
+            affected.setdefault('*', [])
+            if e['entry'] not in affected['*']:
+                affected['*'].append(e['entry'])
+            if job['kind'] == 'reverse' and job['e'] in clean_fail:
+                continue
         lab = job['labels'][k] if job['kind'] == 'seq' or job['labels'][k] is not None else next((l for l in reversed(job['labels'][:k]) if l), '?')
         key = (e['entry'].split(' (')[0], lab.split('[')[0])
+        if e.get('setting'):
+            # one violation per setting (and way of assigning it); the other entry points it shows at are named in the text
+            key = ('setting', lab)
+            affected.setdefault(lab, [])
+            if e['entry'] not in affected[lab]:
+                affected[lab].append(e['entry'])
         if key in seen:
             continue
         seen.add(key); chosen.append((j, k, lab))
@@ -999,6 +1113,36 @@ def near_collision_phase(ctx, rep, info, ents, nc_jobs, allres, ref, broken):
         if 'crash' not in d and d.get('all_cleared') == want:
             culprit = sorted(n for n, dg in d.get('one_cleared', {}).items() if dg == want)
         key = K_GODAMBE if (culprit and 'Godambe.cache' in culprit and info.get('godambe_key') == 'identity-hash') else None
+        if e.get('setting'):
+            def stext(t):
+                return ('dadi.%s = %r' % (t['name'], t['value'])) if t['how'] == 'assign' else ('dadi.%s(%s)' % (t['name'], ', '.join(repr(a) for a in t.get('args', []))))
+            sx, sy = X.get('settings') or [], Y.get('settings') or []
+            x_only, y_only = [t for t in sx if t not in sy], [t for t in sy if t not in sx]
+            touched = set(t['name'] for t in x_only + y_only if t['how'] == 'assign')
+            if any(t['how'] == 'call' for t in x_only + y_only):
+                touched.add(lab.split(' (')[0].replace('setting ', ''))       # what the setter assigns
+            # every statement of B about a setting that A left at another value, in B's order
+            between = [t for t in sy if t in y_only or (t['how'] == 'assign' and t['name'] in touched)]
+            if sx or sy:
+                stmt = '; '.join(stext(t) for t in between)
+                a_had = '; '.join(stext(t) for t in sx if t in x_only or (t['how'] == 'assign' and t['name'] in touched))
+                sigdiff = ','.join(sorted(touched)) + ':' + '+'.join(sorted(set(t['how'] + (':' + t['name'] if t['how'] == 'call' else '') for t in x_only + y_only)))
+            else:
+                stmt = 'numpy.random.seed(%r) (and LowPass.rng re-seeded)' % Y.get('seed'); a_had = 'seed %r' % X.get('seed'); sigdiff = 'seed'
+            others = sorted(set(x for v in affected.values() for x in v) - set([e['entry']]))
+            what = ('%s: calls A and B are the SAME call under different module-level settings (A ran under `%s`).  A is evaluated, then `%s` is executed - %s -, then B: '
+                    'B returns %s instead of what it returns in a pristine interpreter that executed the same statement(s) from the start%s - a memo on the way is keyed on the '
+                    'arguments only, but the setting is read when the stored value is computed: it is part of the call (C20_setting_outside_key_refuted)%s' % (
+                        e['entry'], a_had, stmt,
+                        'plain attribute assignment, the documented way' if all(t['how'] == 'assign' for t in between) else 'the setter, then plain attribute assignment' if not sy or between[-1]['how'] == 'assign' else 'the setter',
+                        'the value of A' if stale else 'a different value',
+                        ('; emptying %s before B restores it' % ', '.join(culprit)) if culprit else
+                        ('; no module-level dictionary or memoising wrapper, emptied, restores it (%s)' % json.dumps({kk: d.get(kk) for kk in ('as_is', 'all_cleared')})[:120] if d else ''),
+                        ('; calls fail in the same way for %d more entry points: %s' % (len(others), ', '.join(others[:10]))) if others else ''))
+            rep.report(key, what, {'kind': 'history', 'calls': [X, Y], 'seed': 0, 'index': 1, 'fresh_digest': want,
+                                   'near_collision': dict(meta, second_call_returns_value_of_first=stale, statements_between_the_calls=stmt, also_affected=others), 'diagnosis': d},
+                       unkeyed_id='setting:' + sigdiff)
+            continue
         what = ('%s: call B differs from call A only in the argument `%s`; evaluated after A in the same process, B returns %s instead of its pristine-interpreter value%s '
                 '- the memoised %s data is keyed on too little (C20_near_collision_pair_decides: a key that told A and B apart would have answered both correctly)' % (
                     e['entry'], lab, 'the value of A' if stale else 'a different value',
@@ -1140,6 +1284,9 @@ def run(ctx):
                 'inbreeding helpers, memoised Numerics functions, likelihoods, optimiser helpers, Godambe, from_demes on tests/demes/*.yaml, from_data_dict); '
                 'a history = 2..N calls sampled with replacement from the catalogue; near-collision histories: a base call per public entry point of every memoised '
                 'family and, per argument of its signature, 2 (quick) / 4 (thorough; 5 for a family whose source obligation broke) calls differing in that argument only; '
+                'setting-collision histories: per entry point reading a module-level setting (integrators d=1..5 constant / time-dependent, one_pop_X, from_phi, models, '
+                'from_demes, Godambe, objective function) and per setting, the same call under the default and under 1-2 (quick) / 4 (thorough) other values assigned by plain '
+                'attribute assignment or the setter, chained A, B.., A and reversed; random helpers under 2+ seeds; '
                 'distinct = distinct history / distinct call specification; '
                 'non-trivial = history in which at least one call finds a cache populated by an earlier call, or layout case with a non-contiguous argument')
     ctx.assumptions += ['bitwise comparison (float.hex of every unmasked entry, masks, labels) only between runs of the same code on the same machine',
@@ -1149,6 +1296,7 @@ def run(ctx):
                     'the kernels are an arbitrary function on the raw buffer they are handed (Heap.v: kern)',
                     'harness/translate/entry_protocol.py, harness/props/c20_scan.py (fail-closed ast / .pyx line translators)',
                     'the random sources of the simulated low-pass entries (numpy global generator, LowPass.rng) are seeded by the driver before each call',
+                    'module-level settings with role bookkeeping / constant / unavailable (cuda_enabled needs a GPU) / unexercised / outside in c20_nearcol.SETTING_TABLE are listed, not varied',
                     'CPython releases a closure when the call that made it returns and may hand its address to the next one (Godambe allocator model)']
     if ctx.replay:
         return run_replay(ctx)
@@ -1268,8 +1416,14 @@ def run(ctx):
         return 5 if (set(fams) & broken) else ctx.pick(2, 4)
     def nbase_of(fams):
         return 3 if (set(fams) & broken) else ctx.pick(1, 3)
+    nc.BROKEN[0] = set(broken)
     ents = nc.entries(cat, rng, nval_of, nbase_of, gen_fs, gen_phi)
     nc.check_signatures(ctx, ents, R, scan)
+    # setting-collision pairs: the module-level settings (and random seeds) as arguments, every run
+    s_ents = nc.setting_entries(cat, rng, nval_of, nbase_of, info.get('setting_defaults') or {}, gen_fs, ctx.quick)
+    ents = ents + s_ents
+    for e in s_ents:
+        ctx.count('setting-collision entry points')
     nc_refs, nc_jobs = {}, []
     for ei, e in enumerate(ents):
         A = e['base']
@@ -1292,13 +1446,18 @@ def run(ctx):
             for B in vs:
                 nc_refs[sig(B)] = B
             # A, then the calls that differ from A in this ONE argument (the first of them runs right after A)
-            nc_jobs.append({'e': ei, 'kind': 'chain', 'calls': [A] + vs, 'labels': [None] + [arg] * len(vs)})
+            if e.get('aba'):
+                # a setting: A under value 1, the assignment of value 2, B, ..., value 1 restored, A again
+                nc_jobs.append({'e': ei, 'kind': 'chain', 'calls': [A] + vs + [A], 'labels': [None] + [arg] * len(vs) + [None]})
+            else:
+                nc_jobs.append({'e': ei, 'kind': 'chain', 'calls': [A] + vs, 'labels': [None] + [arg] * len(vs)})
             rev += list(reversed(vs)); rev_lab += [arg] * len(vs)
             if explicit:
                 # isolated two-call histories, both orders (always in the thorough tier and for a family whose source obligation broke)
-                for B in vs:
-                    nc_jobs.append({'e': ei, 'kind': 'pair', 'calls': [A, B], 'labels': [None, arg]})
-                    nc_jobs.append({'e': ei, 'kind': 'pair', 'calls': [B, A], 'labels': [arg, None]})
+                # (setting entries in the quick tier: the chain A, B1.., A and the reverse history run anyway; isolated histories for the first value of each setting)
+                for B in (vs[:1] if (e.get('aba') and ctx.quick) else vs):
+                    nc_jobs.append({'e': ei, 'kind': 'pair', 'calls': [A, B] + ([A] if e.get('aba') else []), 'labels': [None, arg] + ([None] if e.get('aba') else [])})
+                    nc_jobs.append({'e': ei, 'kind': 'pair', 'calls': [B, A] + ([B] if e.get('aba') else []), 'labels': [arg, None] + ([arg] if e.get('aba') else [])})
         # the other order: every variant first, A last (A must not be answered from an entry one of the variants left behind)
         nc_jobs.append({'e': ei, 'kind': 'reverse', 'calls': rev + [A], 'labels': rev_lab + [None]})
     nc_calls = [c for k, c in nc_refs.items() if k not in bysig]
